@@ -92,6 +92,18 @@ func payloads() []payload {
 		{"plain", "S1E", 1, "", false, ""},
 		{"inline-markup", "S1E <b>S2E</b> S3E", 3, "", true, ""},
 		{"nested-markup", "<span>S1E <i>S2E</i></span>", 2, "", true, ""},
+		// every arrangement of text runs and inline elements, written compactly (no white space between a start tag and the first
+		// child, so the content has exactly the runs shown): a renderer that rebuilds the content from "the text" and "the children"
+		// instead of walking the parts in order puts a lone text run in front of the elements
+		{"elem-then-text", "<b>S1E</b> S2E", 2, "", true, ""},
+		{"elem-text-elem", "<b>S1E</b> S2E <i>S3E</i>", 3, "", true, ""},
+		{"two-elems-then-text", "<b>S1E</b><i>S2E</i> S3E", 3, "", true, ""},
+		{"elem-text-elem-text", "<b>S1E</b> S2E <i>S3E</i> S4E", 4, "", true, ""},
+		{"text-two-elems", "S1E <b>S2E</b><i>S3E</i>", 3, "", true, ""},
+		{"nested-elem-then-text", "<span><b>S1E</b> S2E</span> S3E", 3, "", true, ""},
+		{"elem-only", "<b>S1E</b>", 1, "", true, ""},
+		{"two-elems", "<b>S1E</b><i>S2E</i>", 2, "", true, ""},
+		{"link-then-text", `<a href="http://x/t">S1E</a> S2E S3E`, 3, "", true, ""},
 		{"link", `S1E <a href="http://x/l?a=1&amp;b=2">S2E</a>`, 2, "", true, ""},
 		{"escaped-markup", "&lt;b&gt;S1E&lt;/b&gt;", 1, "<b>S1E</b>", false, ""},
 		{"numeric-lt", "S1E &#60;i&#62;S2E", 2, "<i>S2E", false, ""},
@@ -112,7 +124,7 @@ func payloads() []payload {
 var sentRe = regexp.MustCompile(`S(\d+)E`)
 
 func runC04(res *Result, tier string, seed int64, replay string) {
-	res.Rule = "(1) content matrix, EXHAUSTIVE: 10 content slots (text, button, table cell, raw, navbar link, social element, accordion title/text, title, preview) × 9 placements (column, second column, group, hero, wrapper, middle of three sections, after a chaining section, background-image section, full-width section) × 15 payloads (plain, inline / nested markup, link with &amp;, escaped markup &lt;b&gt;, numeric and hex character references for '<', &amp;, HTML named entities, quotes, <br/>, non-ASCII letters whose case folding changes their byte length, character data whose decoded value looks like a character reference), unique sentinels in reading order; + size payloads in every slot (one unbroken 70 KB token, 70 KB of white space or line breaks, 300 KB of words, 72 KB of CJK text, a 96 KB data URI inside markup); the Lean oracle on the real bytes says which sentinels standard clients see (in order) and which sit only in Outlook blocks; escaped markup must not come out as markup; a document that loses content must return an error. (2) the layout documents of C02/C03 with a sentinel in every slot. Non-trivial = every cell; distinct by (slot, placement, payload)"
+	res.Rule = "(1) content matrix, EXHAUSTIVE: 10 content slots (text, button, table cell, raw, navbar link, social element, accordion title/text, title, preview) × 9 placements (column, second column, group, hero, wrapper, middle of three sections, after a chaining section, background-image section, full-width section) × 24 payloads (plain, inline / nested markup, every compact arrangement of text runs and inline elements (element first, lone text run behind / between elements, elements only), link with &amp;, escaped markup &lt;b&gt;, numeric and hex character references for '<', &amp;, HTML named entities, quotes, <br/>, non-ASCII letters whose case folding changes their byte length, character data whose decoded value looks like a character reference), unique sentinels in reading order; + size payloads in every slot (one unbroken 70 KB token, 70 KB of white space or line breaks, 300 KB of words, 72 KB of CJK text, a 96 KB data URI inside markup); the Lean oracle on the real bytes says which sentinels standard clients see (in order) and which sit only in Outlook blocks; escaped markup must not come out as markup; a document that loses content must return an error. (2) the layout documents of C02/C03 with a sentinel in every slot. Non-trivial = every cell; distinct by (slot, placement, payload)"
 	drv, err := startDriverPool(12)
 	if err != nil {
 		res.Disagree(Violation{Sig: "driver-missing", What: err.Error()})
